@@ -112,7 +112,7 @@ def run(chk):
         return chk.finish("proof", nobl, ndis, axioms, RULE)
     drv = wire.Driver()
     rng = random.Random(chk.seed + 2)
-    n = 150 if chk.tier == "quick" else 3000
+    n = 150 if chk.tier == "quick" else 900
     made = 0
     while made < n:
         base = gen.gen_model(rng)
